@@ -141,7 +141,7 @@ func runBuilt(tools *pipeline.Tools, r *Recorder, rp *Replay, c *pipeline.Case) 
 	}
 	r.NontrivialHashes(res.Nontrivial)
 	for _, s := range res.Samples {
-		r.Sample(map[string]interface{}{"types": rp.Variants[0].Cfg.Types, "case": s})
+		r.Sample(map[string]interface{}{"types": rp.Variants[0].Cfg.Types, "schema": msgOrder(rp.Variants[0].File), "case": s})
 	}
 	if res.Violation != "" {
 		return res.Violation, nil
